@@ -278,6 +278,11 @@ def run_tty_cases(res, exe, driver, cases, tmp, tag, compare_output=True, rng=No
                 # business (its check runs these scripts with the output compared), not this property's
                 d = res.extra.setdefault("output_only_differences", {})
                 d[tag] = d.get(tag, 0) + 1
+        elif "R panic" in raw["obs"] and "helper_panic_at" not in c.meta and not c.meta.get("long"):
+            # a script that is judged by an oracle only (signals, racing messages, no model run): a read that panicked would
+            # leave its trace unaligned and unjudged -- no property holds on a read that panics
+            why = [l for l in raw["obs"] if l.startswith("E panic")][:1]
+            res.oracle_failures.append({"stream": tag, "case": ml, "keys": c.keys, "why": "a read panicked: %s" % (why[0] if why else "R panic")})
         out.append((c, impl, model, raw))
     res.evaluations += len(cases)
     return out
